@@ -25,7 +25,7 @@ ASSUMPTIONS = [
     'cleanup handlers eventually succeed (a failing cleanup is covered by C11\'s policy check); settings.process.ultimate_exiting_timeout is off',
     'with cancellation of the run call the cleanup may be skipped (documented), but must not run before everything else stopped',
 ]
-BUDGET = {'quick': 60, 'thorough': 2500}
+BUDGET = {'quick': 60, 'thorough': 1500}
 TOL = 1e-6
 WIDGETS = ('example.com', 'v1', 'widgets')
 
